@@ -1,4 +1,223 @@
-import Poulpy.Model.Bytes
+import Poulpy.Lemmas.BytesWrap
+/-!
+# C18 — serialisation round-trips, and rejects damaged input without corruption
+
+All statements are about the definitions of `Poulpy/Model/Bytes.lean` that `pdriver ser` executes.
+A reader is `Rd σ α = σ → Bytes → Res σ α`; `Res` carries the receiver as the call leaves it.
+Quantification over **all** byte strings `bs` covers every truncation point and every corruption.
+
+Part 1: the three HAL layouts (full strength, no hypothesis on the receiver).
+Part 2: `Distribution`.
+Part 3: the 26 wrapper readers, through the dispatch table `readerOf` itself.
+-/
 namespace C18
-theorem placeholder : True := trivial
+open Ser
+
+/-! ## Part 1 — VecZnx, ScalarZnx, MatZnx -/
+
+/-- totality: on every byte string and every receiver the reader returns `ok` or `err` -/
+theorem vec_read_total (r : VecZnx) (bs : Bytes) : (VecZnx.readFrom r bs).isPanic = false := by
+  have g := vec_read_good r bs
+  cases h : VecZnx.readFrom r bs <;> simp_all [Good, Res.isPanic]
+example : (VecZnx.readFrom ⟨4, 1, 1, 1, List.replicate 32 0⟩ (leBytes 8 (2 ^ 61) ++ leBytes 8 8 ++ leBytes 8 1 ++ leBytes 8 1 ++ leBytes 8 0)).isPanic = false :=
+  vec_read_total _ _
+
+/-- an error leaves the whole receiver (dimensions and buffer) as it was -/
+theorem vec_read_err_unchanged (r r' : VecZnx) (bs : Bytes) (k : String) (h : VecZnx.readFrom r bs = .err k r') : r' = r := by
+  have g := vec_read_good r bs
+  rw [h] at g; exact g
+example : VecZnx.readFrom ⟨4, 1, 1, 1, List.replicate 32 7⟩ [1, 2, 3] = .err "eof" ⟨4, 1, 1, 1, List.replicate 32 7⟩ := by decide
+
+/-- success establishes the invariant — whatever the receiver looked like before — and never resizes the buffer -/
+theorem vec_read_ok_inv (r r' : VecZnx) (bs rest : Bytes) (h : VecZnx.readFrom r bs = .ok () r' rest) :
+    r'.Inv ∧ r'.data.length = r.data.length := by
+  have g := vec_read_good r bs
+  rw [h] at g; exact vecOk_inv g
+example : (VecZnx.readFrom ⟨0, 0, 0, 0, List.replicate 16 9⟩
+    (leBytes 8 1 ++ leBytes 8 1 ++ leBytes 8 1 ++ leBytes 8 2 ++ leBytes 8 8 ++ List.replicate 8 5)).isOk = true := by decide
+
+/-- what the repair of 0c7f5af excludes: a stream announcing `max_size = 1000` over a 1-limb buffer is refused -/
+theorem vec_read_rejects_oversized_capacity :
+    VecZnx.readFrom ⟨1, 1, 1, 1, List.replicate 8 0⟩
+      (leBytes 8 1 ++ leBytes 8 1 ++ leBytes 8 1 ++ leBytes 8 1000 ++ leBytes 8 8 ++ List.replicate 8 1) =
+      .err "invalid" ⟨1, 1, 1, 1, List.replicate 8 0⟩ := by decide
+
+def VecWF (x : VecZnx) : Prop :=
+  x.n < 2 ^ 64 ∧ x.cols < 2 ^ 64 ∧ x.size < 2 ^ 64 ∧ x.maxSize < 2 ^ 64 ∧ x.n * x.cols < 2 ^ 64 ∧ x.data.length < 2 ^ 64
+
+theorem readU64_le {σ β : Type} (v : Nat) (h : v < 2 ^ 64) (f : Nat → Rd σ β) (s : σ) (rest : Bytes) :
+    (readU64 >>= f) s (leBytes 8 v ++ rest) = f v s rest := by
+  have hl : ¬ (leBytes 8 v ++ rest).length < 8 := by simp [leBytes_length]
+  rw [readU64_bind, take8_le v rest h, drop8_le, if_neg hl]
+
+theorem readU32_le {σ β : Type} (v : Nat) (h : v < 2 ^ 32) (f : Nat → Rd σ β) (s : σ) (rest : Bytes) :
+    (readU32 >>= f) s (leBytes 4 v ++ rest) = f v s rest := by
+  have hl : ¬ (leBytes 4 v ++ rest).length < 4 := by simp [leBytes_length]
+  rw [readU32_bind, take4_le v rest h, drop4_le, if_neg hl]
+
+/-- round trip: every well-formed object satisfying the invariant is written without error (in both
+build profiles) and read back — dimensions and the `n·cols·size·8` active bytes — by any receiver whose
+buffer holds `n·cols·max_size·8` bytes; the unread tail of the stream is left for the next reader. -/
+theorem vec_read_write (x r : VecZnx) (p : Profile) (tail : Bytes) (hw : VecWF x) (hi : x.Inv)
+    (hcap : x.n * x.cols * x.maxSize * 8 ≤ r.data.length) :
+    ∃ bs, x.writeTo p = .ok bs ∧
+      VecZnx.readFrom r (bs ++ tail) =
+        .ok () ⟨x.n, x.cols, x.size, x.maxSize, x.data.take (x.n * x.cols * x.size * 8) ++ r.data.drop (x.n * x.cols * x.size * 8)⟩ tail := by
+  obtain ⟨hn, hc, hs, hm, hnc, hd⟩ := hw
+  obtain ⟨hsz, hbuf⟩ := hi
+  have h1 : x.n * x.cols * x.size * 8 ≤ x.n * x.cols * x.maxSize * 8 :=
+    Nat.mul_le_mul_right 8 (Nat.mul_le_mul_left _ hsz)
+  have h2 : x.n * x.cols * x.size * 8 < 2 ^ 64 := by omega
+  have h3 : x.n * x.cols * x.size < 2 ^ 64 := by omega
+  have h4 : x.n * x.cols * x.maxSize * 8 < 2 ^ 64 := by omega
+  refine ⟨leBytes 8 x.n ++ leBytes 8 x.cols ++ leBytes 8 x.size ++ leBytes 8 x.maxSize ++ leBytes 8 (x.n * x.cols * x.size * 8) ++
+      x.data.take (x.n * x.cols * x.size * 8), ?_, ?_⟩
+  · unfold VecZnx.writeTo
+    simp only [bind, Outcome.bind, mulU_of_lt p hnc, mulU_of_lt p h3, mulU_of_lt p h2]
+    have : ¬ x.data.length < x.n * x.cols * x.size * 8 := by omega
+    simp only [this, ↓reduceIte]
+  · unfold VecZnx.readFrom
+    simp only [List.append_assoc]
+    rw [readU64_le _ hn, readU64_le _ hc, readU64_le _ hs, readU64_le _ hm, readU64_le _ h2]
+    rw [cm3x8_of_lt h2 (Or.inr hnc)]
+    simp only [ne_eq, not_true_eq_false, ↓reduceIte, getS_bind]
+    have hb : ¬ r.data.length < x.n * x.cols * x.size * 8 := by omega
+    simp only [hb, ↓reduceIte, cm3x8_of_lt h4 (Or.inr hnc), Option.any_some, decide_eq_true_eq]
+    have hc2 : ¬ ((decide (x.size > x.maxSize) || !decide (x.n * x.cols * x.maxSize * 8 ≤ r.data.length)) = true) := by
+      simp; omega
+    rw [if_neg hc2, readExactInto_bind]
+    simp only [modifyS_apply]
+    have hl : (List.take (x.n * x.cols * x.size * 8) x.data).length = x.n * x.cols * x.size * 8 := by
+      simp; omega
+    have hg : ¬ (x.n * x.cols * x.size * 8 > r.data.length) := by omega
+    have hlt : ¬ ((List.take (x.n * x.cols * x.size * 8) x.data ++ tail).length < x.n * x.cols * x.size * 8) := by
+      simp; omega
+    simp only [hg, hlt, ↓reduceIte, List.take_left' hl, List.drop_left' hl]
+example : VecWF ⟨2, 1, 1, 2, List.replicate 32 3⟩ ∧ VecZnx.Inv ⟨2, 1, 1, 2, List.replicate 32 3⟩ := by
+  unfold VecWF VecZnx.Inv; decide
+
+theorem scalar_read_total (r : ScalarZnx) (bs : Bytes) : (ScalarZnx.readFrom r bs).isPanic = false := by
+  have g := scalar_read_good r bs
+  cases h : ScalarZnx.readFrom r bs <;> simp_all [Good, Res.isPanic]
+example : (ScalarZnx.readFrom ⟨4, 1, List.replicate 32 0⟩ (leBytes 8 (2 ^ 61) ++ leBytes 8 8 ++ leBytes 8 0)).isPanic = false :=
+  scalar_read_total _ _
+
+theorem scalar_read_err_unchanged (r r' : ScalarZnx) (bs : Bytes) (k : String) (h : ScalarZnx.readFrom r bs = .err k r') : r' = r := by
+  have g := scalar_read_good r bs
+  rw [h] at g; exact g
+example : ScalarZnx.readFrom ⟨4, 1, List.replicate 32 7⟩ (leBytes 8 (2 ^ 32) ++ leBytes 8 (2 ^ 32) ++ leBytes 8 0) =
+    .err "invalid" ⟨4, 1, List.replicate 32 7⟩ := by decide
+
+theorem scalar_read_ok_inv (r r' : ScalarZnx) (bs rest : Bytes) (h : ScalarZnx.readFrom r bs = .ok () r' rest) :
+    r'.Inv ∧ r'.data.length = r.data.length := by
+  have g := scalar_read_good r bs
+  rw [h] at g; exact scalarOk_inv g
+example : (ScalarZnx.readFrom ⟨0, 0, List.replicate 16 9⟩ (leBytes 8 1 ++ leBytes 8 2 ++ leBytes 8 16 ++ List.replicate 16 5)).isOk = true := by
+  decide
+
+theorem mat_read_total (r : MatZnx) (bs : Bytes) : (MatZnx.readFrom r bs).isPanic = false := by
+  have g := mat_read_good r bs
+  cases h : MatZnx.readFrom r bs <;> simp_all [Good, Res.isPanic]
+example : (MatZnx.readFrom ⟨1, 1, 1, 1, 1, List.replicate 8 0⟩
+    (leBytes 8 (2 ^ 61) ++ leBytes 8 1 ++ leBytes 8 1 ++ leBytes 8 1 ++ leBytes 8 1 ++ leBytes 8 0)).isPanic = false :=
+  mat_read_total _ _
+
+theorem mat_read_err_unchanged (r r' : MatZnx) (bs : Bytes) (k : String) (h : MatZnx.readFrom r bs = .err k r') : r' = r := by
+  have g := mat_read_good r bs
+  rw [h] at g; exact g
+example : MatZnx.readFrom ⟨1, 1, 1, 1, 1, List.replicate 8 7⟩ [0, 0, 0, 0, 0, 0, 0, 0, 1] = .err "eof" ⟨1, 1, 1, 1, 1, List.replicate 8 7⟩ := by
+  decide
+
+theorem mat_read_ok_inv (r r' : MatZnx) (bs rest : Bytes) (h : MatZnx.readFrom r bs = .ok () r' rest) :
+    r'.Inv ∧ r'.data.length = r.data.length := by
+  have g := mat_read_good r bs
+  rw [h] at g; exact matOk_inv g
+example : (MatZnx.readFrom ⟨0, 0, 0, 0, 0, List.replicate 16 9⟩
+    (leBytes 8 1 ++ leBytes 8 1 ++ leBytes 8 2 ++ leBytes 8 1 ++ leBytes 8 1 ++ leBytes 8 16 ++ List.replicate 16 5)).isOk = true := by decide
+
+/-- the explicit post-state of a successful HAL read: header fields as announced, the first `len` bytes of the
+buffer replaced by the payload, the rest of the buffer untouched (used by the round-trip statements) -/
+theorem scalar_read_ok_explicit (r r' : ScalarZnx) (bs rest : Bytes) (h : ScalarZnx.readFrom r bs = .ok () r' rest) :
+    ScalarOk r bs r' rest := by
+  have g := scalar_read_good r bs
+  rw [h] at g; exact g
+example : ScalarZnx.readFrom ⟨0, 0, List.replicate 8 9⟩ (leBytes 8 1 ++ leBytes 8 1 ++ leBytes 8 8 ++ List.replicate 8 5) =
+    .ok () ⟨1, 1, List.replicate 8 5⟩ [] := by decide
+
+theorem mat_read_ok_explicit (r r' : MatZnx) (bs rest : Bytes) (h : MatZnx.readFrom r bs = .ok () r' rest) :
+    MatOk r bs r' rest := by
+  have g := mat_read_good r bs
+  rw [h] at g; exact g
+example : MatZnx.readFrom ⟨0, 0, 0, 0, 0, List.replicate 8 9⟩
+    (leBytes 8 1 ++ leBytes 8 1 ++ leBytes 8 1 ++ leBytes 8 1 ++ leBytes 8 1 ++ leBytes 8 8 ++ List.replicate 8 5) =
+    .ok () ⟨1, 1, 1, 1, 1, List.replicate 8 5⟩ [] := by decide
+
+/-! ## Part 2 — `Distribution` -/
+
+theorem or_add (t pl : Nat) (h : pl < 2 ^ 56) : t * 2 ^ 56 ||| pl = t * 2 ^ 56 + pl := by
+  rw [Nat.mul_comm]; exact (Nat.two_pow_add_eq_or_of_lt h t).symm
+
+/-- `Distribution::read_from` on a stream starting with the word `w` -/
+theorem readDist_eval (w : Nat) (hw : w < 2 ^ 64) (tail : Bytes) :
+    readDistAt 0 ⟨[9, 9], [], [], 0⟩ (leBytes 8 w ++ tail) =
+      (if w / 2 ^ 56 = 0 ∨ w / 2 ^ 56 = 2 ∨ w / 2 ^ 56 = 4 then (.ok () ⟨[w / 2 ^ 56, w % 2 ^ 56], [], [], 0⟩ tail : Res St Unit)
+       else if w / 2 ^ 56 = 1 ∨ w / 2 ^ 56 = 3 then .ok () ⟨[w / 2 ^ 56, w % 2 ^ 56 * 256 % 2 ^ 64], [], [], 0⟩ tail
+       else if w / 2 ^ 56 = 5 ∨ w / 2 ^ 56 = 6 then .ok () ⟨[w / 2 ^ 56, 0], [], [], 0⟩ tail
+       else .err "invalid" ⟨[9, 9], [], [], 0⟩) := by
+  unfold readDistAt
+  rw [readU64_le w hw]
+  by_cases h0 : w / 2 ^ 56 = 0 ∨ w / 2 ^ 56 = 2 ∨ w / 2 ^ 56 = 4
+  · simp only [h0, if_true]; rfl
+  · by_cases h1 : w / 2 ^ 56 = 1 ∨ w / 2 ^ 56 = 3
+    · simp only [h0, h1, if_true, if_false]; rfl
+    · by_cases h5 : w / 2 ^ 56 = 5 ∨ w / 2 ^ 56 = 6
+      · simp only [h0, h1, h5, if_true, if_false]; rfl
+      · simp only [h0, h1, h5, if_false]; rfl
+
+/-- the 64-bit word written for `(tag, payload)` and read back gives the same `(tag, payload)` when the
+`usize` of a fixed variant is below 2^56 and the `f64` of a probabilistic variant has its low mantissa
+byte clear (`dist.rs` documents the loss of those 8 bits).
+FULL STATEMENT (false of the code, see `dist_round_trip_counterexample`): the same without `hfix`/`hprob`. -/
+theorem dist_round_trip_partial (tag pl : Nat) (ht : tag ≤ 6)
+    (hfix : (tag = 0 ∨ tag = 2 ∨ tag = 4) → pl < 2 ^ 56)
+    (hprob : (tag = 1 ∨ tag = 3) → pl < 2 ^ 64 ∧ pl % 256 = 0)
+    (hnone : (tag = 5 ∨ tag = 6) → pl = 0) (tail : Bytes) :
+    readDistAt 0 ⟨[9, 9], [], [], 0⟩ (leBytes 8 (distWord tag pl) ++ tail) = .ok () ⟨[tag, pl], [], [], 0⟩ tail := by
+  have htag : tag = 0 ∨ tag = 2 ∨ tag = 4 ∨ tag = 1 ∨ tag = 3 ∨ tag = 5 ∨ tag = 6 := by omega
+  by_cases h0 : tag = 0 ∨ tag = 2 ∨ tag = 4
+  · have hp := hfix h0
+    have e : distWord tag pl = tag * 2 ^ 56 + pl := by
+      unfold distWord; rw [if_pos h0, or_add _ _ hp]; omega
+    have h1 : (tag * 2 ^ 56 + pl) / 2 ^ 56 = tag := by omega
+    have h2 : (tag * 2 ^ 56 + pl) % 2 ^ 56 = pl := by omega
+    rw [e, readDist_eval _ (by omega), h1, h2, if_pos h0]
+  · by_cases h1 : tag = 1 ∨ tag = 3
+    · obtain ⟨hp, hm⟩ := hprob h1
+      have hq : pl / 256 < 2 ^ 56 := by omega
+      have e : distWord tag pl = tag * 2 ^ 56 + pl / 256 := by
+        unfold distWord; rw [if_neg h0, if_pos h1, or_add _ _ hq]
+      have g1 : (tag * 2 ^ 56 + pl / 256) / 2 ^ 56 = tag := by omega
+      have g2 : (tag * 2 ^ 56 + pl / 256) % 2 ^ 56 = pl / 256 := by omega
+      have g3 : pl / 256 * 256 % 2 ^ 64 = pl := by
+        rw [Nat.div_mul_cancel (Nat.dvd_of_mod_eq_zero hm)]; exact Nat.mod_eq_of_lt hp
+      rw [e, readDist_eval _ (by omega), g1, g2, if_neg h0, if_pos h1, g3]
+    · have h5 : tag = 5 ∨ tag = 6 := by omega
+      have hz := hnone h5
+      have e : distWord tag pl = tag * 2 ^ 56 := by
+        unfold distWord; rw [if_neg h0, if_neg h1]
+      have g1 : (tag * 2 ^ 56) / 2 ^ 56 = tag := by omega
+      rw [e, readDist_eval _ (by omega), g1, if_neg h0, if_neg h1, if_pos h5, hz]
+example : (0 = 1 ∨ 0 = 3 → (4599075939470750464 : Nat) < 2 ^ 64 ∧ 4599075939470750464 % 256 = 0) := by decide
+
+/-- `TernaryProb(0.3)` (bits 0x3FD3333333333333) is written as the word 0x013FD33333333333 and read back as
+bits 0x3FD3333333333300: the object read is not equal to the object written (replayed on the real code by
+`pvh ser dist tag=1 bits=4599075939470750515`). -/
+theorem dist_round_trip_counterexample :
+    ¬ (∀ tag pl : Nat, tag ≤ 6 → pl < 2 ^ 64 → ∀ tail,
+        readDistAt 0 ⟨[9, 9], [], [], 0⟩ (leBytes 8 (distWord tag pl) ++ tail) = .ok () ⟨[tag, pl], [], [], 0⟩ tail) := by
+  intro h
+  have := h 1 4599075939470750515 (by decide) (by decide) []
+  revert this
+  decide +kernel
+
 end C18
